@@ -440,7 +440,54 @@ pub fn start_watchdog(limit_s: u64) {
             let _ = std::fs::write(&path, doc);
             println!("VIOLATION property={} replay={}", property, path.display());
             println!("  key=hang: the case did not terminate within {} s", limit_s);
-            std::process::exit(1);
+            use std::io::Write;
+            let _ = std::io::stdout().flush();
+            exit_process(1);
         }
     });
+}
+
+// ------------------------------------------------------------------------------------------
+// exit guard: the code under test must never terminate the checking process behind its back
+// (std::process::exit inside an in-process run would otherwise look like a clean pass)
+// ------------------------------------------------------------------------------------------
+static EXIT_EXPECTED: std::sync::atomic::AtomicBool = std::sync::atomic::AtomicBool::new(false);
+static GUARD_PROPERTY: Mutex<String> = Mutex::new(String::new());
+
+extern "C" fn exit_guard() {
+    if EXIT_EXPECTED.load(Ordering::SeqCst) {
+        return;
+    }
+    let property = GUARD_PROPERTY.lock().map(|g| g.clone()).unwrap_or_default();
+    let cases: Vec<String> = WATCH
+        .lock()
+        .map(|w| w.iter().flatten().map(|(_, _, c)| c.clone()).collect())
+        .unwrap_or_default();
+    let dir = verif_dir().join("replays").join(&property);
+    let _ = std::fs::create_dir_all(&dir);
+    let path = dir.join("process-exit-inside-in-process-run.json");
+    let doc = format!(
+        "{{\"property\": \"{}\", \"key\": \"process-exit-inside-in-process-run\", \"cases_in_flight\": [{}], \"detail\": \"std::process::exit was called by the code under test during an in-process run (no history explored in process is allowed to exit the process)\"}}",
+        property,
+        cases.join(", ")
+    );
+    let _ = std::fs::write(&path, doc);
+    println!("VIOLATION property={} replay={}", property, path.display());
+    println!("  key=process-exit-inside-in-process-run: the code under test called std::process::exit while it was executed in process");
+    use std::io::Write;
+    let _ = std::io::stdout().flush();
+    unsafe { libc::_exit(1) }
+}
+
+pub fn install_exit_guard(property: &str) {
+    *GUARD_PROPERTY.lock().unwrap() = property.to_string();
+    unsafe {
+        libc::atexit(exit_guard);
+    }
+}
+
+/// The only way the checker itself leaves the process.
+pub fn exit_process(code: i32) -> ! {
+    EXIT_EXPECTED.store(true, Ordering::SeqCst);
+    std::process::exit(code)
 }
